@@ -6,15 +6,21 @@ From Rux Require Import Base Str Consts Bind BindFacts.
 Theorem C18_source_query : forall meth ctype, has_body meth = false -> auto_source meth ctype = SQuery.
 Proof. exact source_query. Qed.
 
-(* for every documented media type, with no parameters or with any parameters that contain no '/', the source is the
-   documented one: url-encoded form, multipart form, JSON, XML *)
+(* for every documented media type, with no parameters or with ANY parameters, the source is the documented one:
+   url-encoded form, multipart form, JSON, XML *)
 Theorem C18_source_documented : forall meth mt ps, has_body meth = true -> params_ok ps ->
   In mt [mt_urlencoded; mt_multipart; mt_json; mt_xml; mt_textxml] -> auto_source meth (mt ++ ps) = doc_source mt.
 Proof. exact source_documented. Qed.
 
-(* a Content-Type that contains none of the four markers is an error *)
+(* the parameters never influence the choice *)
+Theorem C18_source_params_irrelevant : forall meth a ps, semi_free a = true ->
+  auto_source meth (a ++ 59%N :: ps) = auto_source meth a.
+Proof. exact source_params_irrelevant. Qed.
+
+(* a Content-Type whose media type (the text before the first ';', trimmed) has none of the four subtypes is an error *)
 Theorem C18_source_unknown : forall meth ctype, has_body meth = true ->
-  contains m_urlencoded ctype = false -> contains m_formdata ctype = false -> contains m_json ctype = false -> contains m_xml ctype = false ->
+  has_suffix m_urlencoded (media_type ctype) = false -> has_suffix m_formdata (media_type ctype) = false ->
+  has_suffix m_json (media_type ctype) = false -> has_suffix m_xml (media_type ctype) = false ->
   auto_source meth ctype = SError.
 Proof. exact source_unknown. Qed.
 
@@ -32,8 +38,11 @@ Proof. exact bind_roundtrip. Qed.
 Theorem C18_error : forall V I (decode : I -> option V) (valid : V -> bool) on i, decode i = None -> bind_with V I decode valid on i = None.
 Proof. exact bind_error_not_value. Qed.
 
-(* known finding K5 (not repaired): the tests are substring tests - application/jsonx is bound as JSON *)
-Theorem C18_substring_dispatch_refuted : auto_source POST (mt_json ++ [120%N]) = SJson /\ doc_source (mt_json ++ [120%N]) = SError.
+(* finding F20 (former K5, repaired): before the repair the tests were substring tests on the whole header value -
+   application/jsonx and "text/plain; a=/json" were bound as JSON; now both are errors *)
+Theorem C18_legacy_F20_refuted :
+  auto_source_legacy POST ct_jsonx = SJson /\ doc_source ct_jsonx = SError /\ auto_source POST ct_jsonx = SError /\
+  auto_source_legacy POST ct_plain_param = SJson /\ auto_source POST ct_plain_param = SError.
 Proof. exact substring_dispatch_refuted. Qed.
 
 Print Assumptions C18_source_query.
@@ -42,4 +51,5 @@ Print Assumptions C18_source_unknown.
 Print Assumptions C18_validated.
 Print Assumptions C18_roundtrip.
 Print Assumptions C18_error.
-Print Assumptions C18_substring_dispatch_refuted.
+Print Assumptions C18_legacy_F20_refuted.
+Print Assumptions C18_source_params_irrelevant.
